@@ -15,7 +15,7 @@
    properties between the state before and after a step; MeshTrace.tla
    asserts the same operators on lines recorded from the real router.
 
-   Switches: HbFilterDirect / CutAtGE / SendsGraft are TRUE in the code;
+   Switches: HbFilterDirect / CutAtGE / SendsGraft / BubbleToD are TRUE in the code;
    flipping one gives a configuration that MUST fail (non-vacuity).
    AllowHalf = TRUE lets the environment kill only the outbound stream: with
    GraftNeedsStream = FALSE (the code as found) P_C07_Connected fails = D6.
@@ -25,7 +25,7 @@ EXTENDS Integers, FiniteSets, Sequences, TLC
 
 CONSTANTS NP, D, Dlo, Dhi, Dscore, Dout, OppTicks, OppPeers, OppThr,
           MaxEvents, MaxHb, MaxDrops, InitMode, ClassMode, InitJoined,
-          HbFilterDirect, CutAtGE, SendsGraft,
+          HbFilterDirect, CutAtGE, SendsGraft, BubbleToD,
           JoinFilterDirect, GraftNeedsStream, AllowDirectInFanout, AllowHalf
 
 Peers  == 1..NP
@@ -84,6 +84,10 @@ MemberClasses ==
          Cls("in", 0, FALSE, "none", TRUE, TRUE, TRUE),   Cls("out", 0, FALSE, "none", TRUE, TRUE, TRUE),
          Cls("in", 1, FALSE, "none", TRUE, TRUE, TRUE),
          Cls("in", 2, FALSE, "none", TRUE, TRUE, TRUE),   Cls("out", 2, FALSE, "none", TRUE, TRUE, TRUE) >>
+    ELSE IF ClassMode = "dout" THEN       \* for Dout >= 2: members of both directions at equal and different scores
+      << Cls("in", 0, FALSE, "none", TRUE, TRUE, TRUE),   Cls("out", 0, FALSE, "none", TRUE, TRUE, TRUE),
+         Cls("in", 1, FALSE, "none", TRUE, TRUE, TRUE),   Cls("out", 1, FALSE, "none", TRUE, TRUE, TRUE),
+         Cls("in", 2, FALSE, "none", TRUE, TRUE, TRUE) >>
     ELSE
       << Cls("in", -1, FALSE, "none", TRUE, TRUE, TRUE),
          Cls("in", 0, FALSE, "none", TRUE, TRUE, TRUE),   Cls("out", 0, FALSE, "none", TRUE, TRUE, TRUE),
@@ -108,6 +112,8 @@ OtherClasses ==
       << Cls("in", 0, FALSE, "none", TRUE, TRUE, FALSE),  Cls("out", 1, FALSE, "none", TRUE, TRUE, FALSE),
          Cls("out", -1, FALSE, "none", TRUE, TRUE, FALSE), Cls("out", 2, TRUE, "none", TRUE, TRUE, FALSE),
          Cls("out", 2, FALSE, "active", TRUE, TRUE, FALSE), Cls("none", 0, FALSE, "none", FALSE, TRUE, FALSE) >>
+    ELSE IF ClassMode = "dout" THEN
+      << Cls("out", 1, FALSE, "none", TRUE, TRUE, FALSE) >>
     ELSE
       << Cls("in", 0, FALSE, "none", TRUE, TRUE, FALSE),  Cls("out", 1, FALSE, "none", TRUE, TRUE, FALSE),
          Cls("out", 2, FALSE, "active", TRUE, TRUE, FALSE) >>
@@ -308,7 +314,7 @@ Rot(pl, i) == <<pl[i]>> \o SubSeq(pl, 1, i - 1) \o SubSeq(pl, i + 1, Len(pl))
 \* "first bubble up all outbound peers already in the selection to the front" (indices are 1-based here)
 RECURSIVE BubA(_, _, _)
 BubA(pl, i, ihave) ==
-    IF i > D \/ ihave <= 0 THEN pl
+    IF i > (IF BubbleToD THEN D ELSE Dscore) \/ ihave <= 0 THEN pl      \* the code scans the whole selection (i < D)
     ELSE IF pl[i] \in Outb THEN BubA(Rot(pl, i), i + 1, ihave - 1) ELSE BubA(pl, i + 1, ihave)
 
 \* "now bubble up enough outbound peers outside the selection to the front"
@@ -415,7 +421,7 @@ Removed == IF act' \in {"hb", "leave"} THEN {p \in mesh \ mesh' : Connected(p)} 
 
 A_NoNegative == IsHb => MP!P_C07_NoNegative(V, mesh')
 A_Grow       == IsHb => MP!P_C07_Grow(P, V, mesh')
-A_Cut        == IsHb /\ MP!ValidParams(P) => MP!P_C07_Cut(P, V, mesh')
+A_Cut        == IsHb => MP!P_C07_Cut(P, V, mesh')
 A_Explained  == IsHb => MP!HbExplained(P, V, ticks' = 0, mesh')
 A_Additions  ==
     /\ IsHb => MP!P_C07_Additions(V, mesh')
